@@ -210,7 +210,10 @@ def c2_copy_on_write(ctx, res: Result, rule="C2-component-copy-on-write") -> int
                 # only propagated writes of private helpers are judged here
                 callee_name = (ev.via or "").rsplit("::", 1)[-1].split(".")[-1]
                 if not (callee_name.startswith("_") and not callee_name.startswith("__")):
-                    continue
+                    # a public callee that mutates a plain container it was handed (a dict / list parameter) is judged
+                    # here only when what it was handed is a container held in a component field
+                    if ev.kind != "callee" or not any(any(st[0] == "f" and st[1] in fields for st in loc_steps(l)[1]) and loc_steps(l)[0][0] != "F" for l in ev.locs) or ev.field in fields:
+                        continue
                 if own and fi.name in ("__init__", "__post_init__"):
                     continue
             hit = None
